@@ -316,9 +316,14 @@ class Ephem(Speaker):
 
         # the new ephemeris interpolates the same way as this one (copy() relies on
         # this method, and used to hand back an ephemeris with the default settings)
-        return self.__class__(
+        new = self.__class__(
             self.ephemeris(*args, **kwargs), method=self.method, order=self.order
         )
+        # free attributes given to the ephemeris (name, cospar_id) ride along
+        for key, value in vars(self).items():
+            if not key.startswith("_"):
+                setattr(new, key, value)
+        return new
 
     def copy(self, *, form=None, frame=None, same=None):  # pragma: no cover
         """Create a deep copy of the ephemeris. Optionally, allow frame and form changing
